@@ -24,7 +24,7 @@ from .grid import Grid
 from .sortabledict import SortableDict
 # Bring in version handling
 from .version import Version, VER_2_0, VER_3_0
-from .zoneinfo import timezone
+from .zoneinfo import timezone, in_timezone
 
 # Logging instance for reporting debug info
 LOG = logging.getLogger(__name__)
@@ -312,8 +312,7 @@ def _parse_datetime(toks):
         return [timezone(tzname).localise(isodt)]
     elif bool(tzname):
         try:
-            tz = timezone(tzname)
-            return [isodt.astimezone(tz)]
+            return [in_timezone(isodt, tzname)]
         except:  # pragma: no cover
             # Unlikely to occur, might do though if Project Haystack changes
             # its timezone list or if a system doesn't recognise a particular
